@@ -17,6 +17,15 @@
 (* while every (receiver state, next submessage) pair is explored.         *)
 (* GenEdge dumps explored transitions as the datagrams that exercise them, *)
 (* for replay into the real code.                                          *)
+(*                                                                         *)
+(* Matching configurations (m.xm, see SecGateSem): Init also chooses which *)
+(* local readers are, besides their peer writer, matched to a writer of a  *)
+(* second remote participant that carries the EntityId of ANOTHER topic's  *)
+(* peer writer.  A writer submessage without reader id then fans out to    *)
+(* several candidate readers with different protection requirements; the   *)
+(* invariants demand the per-reader decision: no candidate that requires   *)
+(* submessage protection gets the plaintext, every candidate that needs no *)
+(* protection and is matched to the sender gets it.                        *)
 (***************************************************************************)
 EXTENDS SecGateSem, TLC, Json
 
@@ -24,6 +33,9 @@ CONSTANTS MDests,     \* destinations / topics used by the alphabet
           MKinds,     \* submessage kinds used by the alphabet
           MGovs,      \* governance documents: "N" (rtps NONE), "S" (SIGN), "E" (ENCRYPT)
           MaxLen,     \* wire positions per datagram
+          MXm,        \* matching configurations, by index (see XmOf): 0 = every reader matched to its peer writer only
+          MWraps,     \* "all": every addressing of the protected submessage; "unknown": only those without reader id
+          MSrcs,      \* sources (RTPS header prefix): "peer", "peer2" (second participant), "foreign"
           GenK        \* 1: dump transitions as datagrams for replay (see GenEdge), 0: no dump
 
 VARIABLES gov, m, st, lastDel, protOK, flowOK
@@ -34,34 +46,53 @@ El(t, kind, dst, wr, pay, w, who) ==
 
 Pays(kind, wr) == IF IsData(kind) THEN {"plain"} \cup (IF PayProt(wr) THEN {"enc"} ELSE {}) ELSE {"na"}
 
-PlainEls ==
+\* Matching configurations.  The readers that take part, in the order of their EntityIds (the order in
+\* which the receiver walks its readers).  Rot(k) matches reader i additionally to the second
+\* participant's writer that has the EntityId of topic i+k: for every writer id there are exactly two
+\* candidate readers, and Rot(1) .. Rot(n-1) together contain every ordered pair of distinct topics once.
+\* Full: every reader knows every writer id of the second participant (including the one of its own
+\* topic: two remote participants whose writers on one topic share the EntityId).
+FanOrder == <<"NN", "EN", "NE", "sedp", "EE", "SN", "NS">>
+MFan == SelectSeq(FanOrder, LAMBDA d : d \in MDests)
+NF   == Len(MFan)
+Rot(k) == {<<MFan[i], MFan[((i - 1 + k) % NF) + 1]>> : i \in 1..NF}
+XmOf(k) == IF k = 0 THEN {} ELSE IF k < NF THEN Rot(k) ELSE {<<MFan[i], MFan[j]>> : i \in 1..NF, j \in 1..NF}
+
+PlainEls(xm) ==
   UNION {UNION {
      {El("ent", k, d, d, p, 0, "na") : p \in Pays(k, d)}
      \cup (IF k \in WriterKinds THEN {El("ent", k, "UNKNOWN", d, p, 0, "na") : p \in Pays(k, d)} ELSE {})
      : d \in MDests} : k \in MKinds}
+  \* named reader, writer id of another topic: the second participant's writer matched to that reader
+  \cup UNION {{El("ent", k, x[1], x[2], p, 0, "na") : p \in Pays(k, x[2])}
+              : x \in {y \in xm : y[1] # y[2]}, k \in MKinds \cap WriterKinds}
 
 \* what the peer protected with the endpoint keys of a submessage-protected topic: addressed to
 \* the right reader, to UNKNOWN, to another protected reader, to an unprotected reader
-WrapSpecs ==
+WrapSpecs(xm) ==
   UNION {UNION {
      {[id |-> 0, kind |-> k, dst |-> dw[1], wr |-> dw[2], pay |-> p, key |-> key, opaque |-> (key # "SN")]
-        : dw \in ({<<key, key>>, <<"NN", key>>, <<"NN", "NN">>}
+        : dw \in {z \in ({<<key, key>>, <<"NN", key>>, <<"NN", "NN">>}
                    \cup (IF k \in WriterKinds THEN {<<"UNKNOWN", key>>} ELSE {})
+                   \* no reader id, writer id of another topic for which the key's reader is a candidate
+                   \cup (IF k \in WriterKinds THEN {<<"UNKNOWN", x[2]>> : x \in {y \in xm : y[1] = key /\ y[2] # key}} ELSE {})
                    \* addressed to ANOTHER protected endpoint, also by that endpoint's matched writer
-                   \cup UNION {{<<x, key>>, <<x, x>>} : x \in {y \in MDests : SubProt(y) /\ y # key /\ y # "volatile"}}),
+                   \cup UNION {{<<x, key>>, <<x, x>>} : x \in {y \in MDests : SubProt(y) /\ y # key /\ y # "volatile"}})
+                  : MWraps = "all" \/ z[1] = "UNKNOWN"},
           p \in Pays(k, key)}
      : key \in {x \in MDests : SubProt(x)}} : k \in (MKinds \cap {"DATA", "ACK"})}
 
 SecEls == {El(t, "na", "na", "na", "na", w, "na") : t \in {"P", "B", "F"}, w \in {1, 2}}
-IntEls == {El("idst", "na", "na", "na", "na", 0, "other"), El("idst", "na", "na", "na", "na", 0, "self"),
-           El("isrc", "na", "na", "na", "na", 0, "foreign")}
-Alphabet == PlainEls \cup SecEls \cup IntEls
+IntEls == {El("idst", "na", "na", "na", "na", 0, "other"), El("idst", "na", "na", "na", "na", 0, "self")}
+           \cup {El("isrc", "na", "na", "na", "na", 0, s) : s \in (MSrcs \ {"peer"})}
+Alphabet(xm) == PlainEls(xm) \cup SecEls \cup IntEls
 
 Init ==
   /\ gov \in MGovs
-  /\ \E first \in {"plain", "srtps"}, src \in {"peer", "foreign"}, ws \in WrapSpecs :
+  /\ \E first \in {"plain", "srtps"}, src \in MSrcs, k \in MXm : \E ws \in WrapSpecs(XmOf(k)) :
        /\ (first = "srtps") => (gov # "N" /\ src = "peer")
-       /\ m = [rtps |-> (gov # "N"), first |-> first, src |-> src,
+       /\ (src = "peer2") => (k # 0)
+       /\ m = [rtps |-> (gov # "N"), first |-> first, src |-> src, xm |-> XmOf(k),
                \* two instances of the same protected submessage: parts of different instances never
                \* decode together
                wraps |-> <<[ws EXCEPT !.id = 1], [ws EXCEPT !.id = 2]>>, els |-> <<>>]
@@ -71,7 +102,7 @@ Init ==
 
 Next ==
   /\ Len(m.els) < MaxLen
-  /\ \E a \in Alphabet :
+  /\ \E a \in Alphabet(m.xm) :
        LET e == [a EXCEPT !.id = IF a.t = "ent" THEN Len(m.els) + 3 ELSE 0]
            r == RecvStep(m, st, e)
        IN /\ m' = [m EXCEPT !.els = Append(@, e)]
@@ -87,7 +118,7 @@ Spec == Init /\ [][Next]_vars
 \* The history m.els and the identifiers (positions) are not part of the view: what the receiver
 \* does next and what the property says about it depend on the history only through `st` (a stored
 \* prefix / body ARE the last one / two positions).
-View == <<gov, m.rtps, m.first, m.src, m.wraps, st.sec, st.pw, [st.pb EXCEPT !.id = 0], st.dstOK, st.srcPeer,
+View == <<gov, m.rtps, m.first, m.src, m.xm, m.wraps, st.sec, st.pw, [st.pb EXCEPT !.id = 0], st.dstOK, st.src,
           protOK, flowOK, {p[2] : p \in lastDel}>>
 
 Inv_Protected == protOK
@@ -96,17 +127,31 @@ Inv_Flows == flowOK
 \* vacuity guards: "invariants" that must be VIOLATED (the situations are reachable); checked by hand,
 \* see NOTES_gate.md
 Reach_ProtectedDelivered == ~(\E p \in lastDel : SubProt(p[2]))
+\* fan-out: one plain submessage without reader id is handed to a reader of another topic than the
+\* sender's / is withheld from one candidate while handed to another
+Reach_FanOutOtherTopic == ~(\E p \in lastDel : Len(m.els) >= 1 /\ m.els[Len(m.els)].t = "ent"
+                                               /\ m.els[Len(m.els)].dst = "UNKNOWN" /\ p[2] # m.els[Len(m.els)].wr)
+Reach_FanOutSplit == ~(Len(m.els) >= 1 /\ m.els[Len(m.els)].t = "ent" /\ m.els[Len(m.els)].dst = "UNKNOWN" /\ st.sec = "None"
+                       /\ lastDel # {} /\ \E d \in Cand(m, m.els[Len(m.els)].wr) : d \notin {p[2] : p \in lastDel})
 Reach_PlainBlocked == ~(Len(m.els) >= 1 /\ m.els[Len(m.els)].t = "ent" /\ lastDel = {})
 
 \* Deterministic thinning of the dump: all transitions out of receiver states None and Prefix; out of
 \* state Body (prefix + one stored submessage) all transitions when the stored submessage is the body
 \* that belongs to the prefix, otherwise (the sequence can no longer decode) only those that try a
 \* postfix and those that repeat the stored submessage.
+\* With a matching configuration (m.xm # {}) the configuration can only matter where an entity
+\* submessage is routed: all transitions out of state None, and the path to a decodable triple
+\* (None -P-> Prefix -B-> Body -F->); the other transitions out of Prefix / Body do not depend on it and
+\* are dumped by the configurations with m.xm = {}.  (TLC still checks the invariants on all of them.)
 GenEdge == (GenK > 0) =>
              LET e == m'.els[Len(m'.els)] IN
-             (\/ st.sec # "Body"
-              \/ (st.pb.t = "B" /\ st.pb.w = st.pw)
-              \/ e.t = "F"
-              \/ [e EXCEPT !.id = 0] = [st.pb EXCEPT !.id = 0]) =>
-             PrintT("REPLAY " \o ToJson([gov |-> gov, first |-> m'.first, src |-> m'.src, wraps |-> m'.wraps, els |-> m'.els]))
+             (IF m.xm = {}
+              THEN \/ st.sec # "Body"
+                   \/ (st.pb.t = "B" /\ st.pb.w = st.pw)
+                   \/ e.t = "F"
+                   \/ [e EXCEPT !.id = 0] = [st.pb EXCEPT !.id = 0]
+              ELSE \/ st.sec = "None"
+                   \/ (st.sec = "Prefix" /\ e.t = "B" /\ e.w = st.pw)
+                   \/ (st.sec = "Body" /\ st.pb.t = "B" /\ st.pb.w = st.pw /\ e.t = "F")) =>
+             PrintT("REPLAY " \o ToJson([gov |-> gov, xm |-> m'.xm, first |-> m'.first, src |-> m'.src, wraps |-> m'.wraps, els |-> m'.els]))
 =============================================================================
